@@ -819,3 +819,480 @@ Proof.
   intros [_ _ _ J _ _ _ _ _] Hc Hs Hd Hn. rewrite Hc, Hs, Hd, Hn in J. simpl in J.
   destruct (listed w); auto. simpl in J. lia.
 Qed.
+
+(* ------------------------------------------------------------------------------------------ *)
+(* close_returns: the goroutine a waiting close call depends on is never stuck                  *)
+Lemma cnt_two f g : forall l i p,
+  nth_error l i = Some p -> f p = true -> g p = false -> (forall q, g q = true -> f q = true) ->
+  cnt g l + 1 <= cnt f l.
+Proof.
+  intros l i p Hn Hf Hg Hs. revert i Hn.
+  induction l as [|a l IH]; intros [|i] Hn; simpl in *; try discriminate.
+  - inversion Hn; subst. rewrite Hf, Hg. simpl. pose proof (cnt_le g f l Hs). lia.
+  - specialize (IH _ Hn). destruct (g a) eqn:E; simpl; [rewrite (Hs _ E); simpl|]; lia.
+Qed.
+
+Lemma chan_le_closed a b : chan_le a b = true -> is_closed a = true -> is_closed b = true.
+Proof. destruct a, b; simpl; auto; discriminate. Qed.
+
+Lemma step_keeps m p w w' p' :
+  exec m p w = Step w' p' ->
+  (closing (cli w) = true -> closing (cli w') = true) /\
+  (is_closed (done (cli w)) = true -> is_closed (done (cli w')) = true) /\
+  (l_closing w = true -> l_closing w' = true) /\
+  (is_closed (l_done w) = true -> is_closed (l_done w') = true).
+Proof.
+  intros H. apply step_le in H. unfold world_le, sess_le in H. split_andb.
+  repeat split; intros E.
+  - match goal with A : implb (closing (cli w)) _ = true |- _ => rewrite E in A; exact A end.
+  - match goal with A : chan_le (done (cli w)) _ = true |- _ => eapply chan_le_closed; eauto end.
+  - match goal with A : implb (l_closing w) _ = true |- _ => rewrite E in A; exact A end.
+  - match goal with A : chan_le (l_done w) _ = true |- _ => eapply chan_le_closed; eauto end.
+Qed.
+
+(* the client's listen goroutine (thread 0 of the pool) *)
+Definition listen_pc (p : pc) : bool :=
+  match p with
+  | CL0 | CR0 | CR1 | CR2 | CR3 | CR4 | CR5 | CL1 | CL2 | CL3 | CL4 | SD0 Cli RDone | SD3 Cli RDone _ | PDone => true
+  | _ => false
+  end.
+Definition lrank (p : pc) : nat :=
+  match p with
+  | CR0 => 16 | CR1 => 15 | CR2 => 14 | CR3 => 13 | CR4 => 12 | CR5 => 11 | CL0 => 10 | CL1 => 9 | CL2 => 8
+  | CL3 => 7 | CL4 => 6 | SD0 _ _ => 5 | SD3 _ _ _ => 4 | _ => 0
+  end.
+
+Lemma in_listen_cs q : cs Cli q = true -> in_listen q = true.
+Proof. destruct q; simpl; try discriminate; destruct d; simpl; auto; discriminate. Qed.
+
+Lemma listen_step pool w p :
+  Inv pool w -> closing (cli w) = true -> nth_error pool 0 = Some p -> listen_pc p = true -> p <> PDone ->
+  exists w' p', exec New p w = Step w' p' /\ listen_pc p' = true /\ lrank p' < lrank p /\
+                (p' = PDone -> is_closed (done (cli w')) = true).
+Proof.
+  intros HI Hc Hn Hl Hne.
+  destruct (exec New p w) as [w' p'| |f] eqn:E.
+  - exists w', p'. split; [reflexivity|].
+    pose proof (cnt_ge skip_cli pool 0 p Hn) as G.
+    destruct_inv HI. destruct_world w. cbn in *. subst cg.
+    destruct p; try discriminate Hl; try (destruct d; try discriminate Hl); try (destruct r; try discriminate Hl);
+      try (destruct x); cbn in E, G;
+      repeat (break_match_hyp E; try discriminate);
+      try (match goal with H : Closing _ = false |- _ =>
+             unfold Closing in H; cbn in H; rewrite orb_true_r in H; discriminate H end);
+      try use_section Hokc;
+      inversion E; subst; clear E; cbn;
+      repeat split; try reflexivity; try lia; try discriminate; try (exfalso; lia).
+  - exfalso.
+    pose proof (cnt_two in_listen (cs Cli) pool 0 p Hn) as T.
+    destruct_inv HI. destruct_world w. cbn in *. subst cg.
+    destruct p; try discriminate Hl; try (destruct d; try discriminate Hl); try (destruct r; try discriminate Hl);
+      try (destruct x); try congruence; cbn in E;
+      rewrite ?orb_true_r in E;
+      repeat (break_match_hyp E; try discriminate); try discriminate E.
+    all: try (specialize (T eq_refl eq_refl in_listen_cs); cbn [b2n] in *; lia).
+    all: try no_section Hokc.
+    all: try (match goal with H : Closing _ = false |- _ =>
+                unfold Closing in H; cbn in H; rewrite orb_true_r in H; discriminate H end).
+  - pose proof (step_fault _ _ _ _ _ HI Hn E). subst f. exfalso.
+    destruct p; try discriminate Hl; try (destruct d; try discriminate Hl); cbn in E; unfold close_fault in E;
+      repeat match goal with
+             | H : context [match ?X with _ => _ end] |- _ => destruct X eqn:?; try discriminate
+             end;
+      repeat match goal with H : Some _ = Some _ |- _ => inversion H; clear H; subst end;
+      try (inversion E; subst; discriminate);
+      match goal with A : shutdown_section _ = inr _ |- _ =>
+        apply section_fault_kind in A; inversion E; subst; discriminate A end.
+Qed.
+
+(* a goroutine (thread k of the pool) that, while [cond] holds, can always take its next step
+   and gets strictly closer to its end: after [rank] of its own steps it is done, whatever the
+   other threads do in between *)
+Section Progress.
+  Variables (k : nat) (good : pc -> bool) (rank : pc -> nat) (cond post : world -> bool).
+  Hypothesis good_step : forall pool w p,
+    Inv pool w -> cond w = true -> nth_error pool k = Some p -> good p = true -> p <> PDone ->
+    exists w' p', exec New p w = Step w' p' /\ good p' = true /\ rank p' < rank p /\ (p' = PDone -> post w' = true).
+  Hypothesis keeps : forall p w w' p',
+    exec New p w = Step w' p' -> (cond w = true -> cond w' = true) /\ (post w = true -> post w' = true).
+  Hypothesis rank_done : rank PDone = 0.
+
+  Lemma progress : forall sched pool w p,
+    Inv pool w -> cond w = true -> nth_error pool k = Some p -> good p = true ->
+    (p = PDone -> post w = true) ->
+    match run New sched pool w with
+    | Running pool' w' =>
+        exists p', nth_error pool' k = Some p' /\ good p' = true /\
+                   rank p' <= rank p - count_occ_nat k sched /\ (p' = PDone -> post w' = true)
+    | Faulted _ _ => True
+    end.
+  Proof.
+    induction sched as [|i rest IH]; intros pool w p HI Hc Hn Hl Hd.
+    - simpl. exists p. repeat split; auto. lia.
+    - cbn [run count_occ_nat]. unfold sched1. destruct (nth_error pool i) as [q|] eqn:En.
+      + destruct (Nat.eq_dec i k) as [Ek|Ek].
+        * subst i. rewrite Nat.eqb_refl. rewrite Hn in En. inversion En; subst q.
+          assert (D : p = PDone \/ p <> PDone) by (destruct p; auto; right; discriminate).
+          destruct D as [D|D].
+          { subst p. cbn [exec]. specialize (IH pool w PDone HI Hc Hn Hl Hd).
+            destruct (run New rest pool w); auto.
+            destruct IH as (p' & A1 & A2 & A3 & A4). exists p'. repeat split; auto. lia. }
+          { destruct (good_step pool w p HI Hc Hn Hl D) as (w1 & p1 & E1 & L1 & R1 & D1).
+            rewrite E1.
+            specialize (IH (set_nth k p1 pool) w1 p1 (step_inv _ _ _ _ _ _ HI Hn E1)
+                           (proj1 (keeps _ _ _ _ E1) Hc)
+                           (nth_error_set_nth_same _ _ _ _ Hn) L1 D1).
+            destruct (run New rest (set_nth k p1 pool) w1); auto.
+            destruct IH as (p' & A1 & A2 & A3 & A4). exists p'. repeat split; auto. lia. }
+        * assert (Eb : Nat.eqb i k = false) by (apply Nat.eqb_neq; auto). rewrite Eb. cbn [Nat.add].
+          destruct (exec New q w) as [w1 q1| |f] eqn:E; auto.
+          -- destruct (keeps _ _ _ _ E) as (K1 & K2).
+             specialize (IH (set_nth i q1 pool) w1 p (step_inv _ _ _ _ _ _ HI En E) (K1 Hc)).
+             rewrite nth_error_set_nth_other in IH by auto.
+             exact (IH Hn Hl (fun e => K2 (Hd e))).
+          -- apply (IH pool w p); auto.
+      + destruct (Nat.eq_dec i k) as [Ek|Ek]; [subst; congruence|].
+        assert (Eb : Nat.eqb i k = false) by (apply Nat.eqb_neq; auto). rewrite Eb. cbn [Nat.add].
+        apply (IH pool w p); auto.
+  Qed.
+End Progress.
+
+Lemma keeps_client p w w' p' :
+  exec New p w = Step w' p' ->
+  (closing (cli w) = true -> closing (cli w') = true) /\
+  (is_closed (done (cli w)) = true -> is_closed (done (cli w')) = true).
+Proof. intros H. destruct (step_keeps _ _ _ _ _ H) as (A & B & _ & _). auto. Qed.
+
+Definition listen_progress :=
+  progress 0 listen_pc lrank (fun w => closing (cli w)) (fun w => is_closed (done (cli w))) listen_step keeps_client eq_refl.
+
+Lemma lrank_zero p : listen_pc p = true -> lrank p = 0 -> p = PDone.
+Proof. destruct p; simpl; intros; try discriminate; try lia; auto. Qed.
+Lemma lrank_max p : lrank p <= 16.
+Proof. destruct p; simpl; lia. Qed.
+
+(* Session.Close on the client: the wait for s.ch ends, under the one fairness assumption that
+   the listen goroutine is scheduled (16 of its own steps suffice) *)
+Lemma client_close_returns sched pool w p pool' w' :
+  Inv pool w -> closing (cli w) = true ->
+  nth_error pool 0 = Some p -> listen_pc p = true -> (p = PDone -> is_closed (done (cli w)) = true) ->
+  16 <= count_occ_nat 0 sched ->
+  run New sched pool w = Running pool' w' ->
+  is_closed (done (cli w')) = true /\ nth_error pool' 0 = Some PDone /\ exec New CC5 w' = Step w' PDone.
+Proof.
+  intros HI Hc Hn Hl Hd Hk Hr.
+  pose proof (listen_progress sched pool w p HI Hc Hn Hl Hd) as P.
+  rewrite Hr in P. destruct P as (p' & A1 & A2 & A3 & A4).
+  pose proof (lrank_max p).
+  assert (p' = PDone) by (apply lrank_zero; auto; lia).
+  subst p'. specialize (A4 eq_refl). repeat split; auto.
+  simpl. rewrite A4. reflexivity.
+Qed.
+
+(* ---- Listener.Close: the listener goroutine is thread 3 ---- *)
+Definition listener_pc (p : pc) : bool :=
+  match p with LT0 | LT1 | LT2 | LT3 | LT4 | PDone => true | _ => false end.
+Definition trank (p : pc) : nat :=
+  match p with LT0 => 5 | LT1 => 4 | LT2 => 3 | LT3 => 2 | LT4 => 1 | _ => 0 end.
+
+Lemma listener_step pool w p :
+  Inv pool w -> l_closing w = true -> nth_error pool 3 = Some p -> listener_pc p = true -> p <> PDone ->
+  exists w' p', exec New p w = Step w' p' /\ listener_pc p' = true /\ trank p' < trank p /\
+                (p' = PDone -> is_closed (l_done w') = true).
+Proof.
+  intros HI Hc Hn Hl Hne.
+  destruct (exec New p w) as [w' p'| |f] eqn:E.
+  - exists w', p'. split; [reflexivity|].
+    destruct_world w. cbn in Hc. subst lcg.
+    destruct p; try discriminate Hl; cbn in E; rewrite ?orb_true_r in E;
+      repeat (break_match_hyp E; try discriminate);
+      inversion E; subst; clear E; cbn;
+      repeat split; try reflexivity; try lia; try discriminate.
+  - exfalso. destruct_world w. cbn in Hc. subst lcg.
+    destruct p; try discriminate Hl; try congruence; cbn in E; rewrite ?orb_true_r in E;
+      repeat (break_match_hyp E; try discriminate); try discriminate E.
+  - pose proof (step_fault _ _ _ _ _ HI Hn E). subst f. exfalso.
+    destruct p; try discriminate Hl; cbn in E; unfold close_fault in E;
+      repeat match goal with
+             | H : context [match ?X with _ => _ end] |- _ => destruct X eqn:?; try discriminate
+             end;
+      repeat match goal with H : Some _ = Some _ |- _ => inversion H; clear H; subst end;
+      try (inversion E; subst; discriminate).
+Qed.
+
+Lemma keeps_listener p w w' p' :
+  exec New p w = Step w' p' ->
+  (l_closing w = true -> l_closing w' = true) /\
+  (is_closed (l_done w) = true -> is_closed (l_done w') = true).
+Proof. intros H. destruct (step_keeps _ _ _ _ _ H) as (_ & _ & A & B). auto. Qed.
+
+Definition listener_progress :=
+  progress 3 listener_pc trank (fun w => l_closing w) (fun w => is_closed (l_done w)) listener_step keeps_listener eq_refl.
+
+Lemma trank_zero p : listener_pc p = true -> trank p = 0 -> p = PDone.
+Proof. destruct p; simpl; intros; try discriminate; try lia; auto. Qed.
+
+Lemma listener_close_returns sched pool w p pool' w' r :
+  Inv pool w -> l_closing w = true ->
+  nth_error pool 3 = Some p -> listener_pc p = true -> (p = PDone -> is_closed (l_done w) = true) ->
+  5 <= count_occ_nat 3 sched ->
+  run New sched pool w = Running pool' w' ->
+  is_closed (l_done w') = true /\ exec New (LC4 r) w' = Step w' (ret_pc r).
+Proof.
+  intros HI Hc Hn Hl Hd Hk Hr.
+  pose proof (listener_progress sched pool w p HI Hc Hn Hl Hd) as P.
+  rewrite Hr in P. destruct P as (p' & A1 & A2 & A3 & A4).
+  assert (trank p <= 5) by (destruct p; simpl; lia).
+  assert (p' = PDone) by (apply trank_zero; auto; lia).
+  subst p'. specialize (A4 eq_refl). split; auto.
+  simpl. rewrite A4. reflexivity.
+Qed.
+
+(* ---- reachable states: thread 0 is the listen goroutine, thread 3 the listener ---- *)
+Lemma listen_pc_step pool w p w' p' :
+  Inv pool w -> nth_error pool 0 = Some p -> listen_pc p = true -> exec New p w = Step w' p' ->
+  listen_pc p' = true /\ (p' = PDone -> is_closed (done (cli w')) = true).
+Proof.
+  intros HI Hn Hl E.
+  pose proof (cnt_ge skip_cli pool 0 p Hn) as G.
+  destruct_inv HI. destruct_world w. cbn in *.
+  destruct p; try discriminate Hl; try (destruct d; try discriminate Hl); try (destruct r; try discriminate Hl);
+    try (destruct x); cbn in E, G;
+    repeat (break_match_hyp E; try discriminate);
+    try use_section Hokc;
+    inversion E; subst; clear E; cbn;
+    repeat split; try reflexivity; try lia; try discriminate; try (exfalso; lia).
+Qed.
+
+Lemma listener_pc_step w p w' p' :
+  listener_pc p = true -> exec New p w = Step w' p' ->
+  listener_pc p' = true /\ (p' = PDone -> is_closed (l_done w') = true).
+Proof.
+  intros Hl E. destruct_world w.
+  destruct p; try discriminate Hl; cbn in E;
+    repeat (break_match_hyp E; try discriminate);
+    inversion E; subst; clear E; cbn;
+    repeat split; try reflexivity; try discriminate.
+Qed.
+
+Definition InvL (pool : list pc) (w : world) : Prop :=
+  (exists p, nth_error pool 0 = Some p /\ listen_pc p = true /\ (p = PDone -> is_closed (done (cli w)) = true)) /\
+  (exists p, nth_error pool 3 = Some p /\ listener_pc p = true /\ (p = PDone -> is_closed (l_done w) = true)).
+
+Definition Inv3 (pool : list pc) (w : world) : Prop := Inv pool w /\ Inv2 pool w /\ InvL pool w.
+
+Lemma step_invL pool w i p w' p' :
+  Inv pool w -> InvL pool w -> nth_error pool i = Some p -> exec New p w = Step w' p' ->
+  InvL (set_nth i p' pool) w'.
+Proof.
+  intros HI [(a & A1 & A2 & A3) (b & B1 & B2 & B3)] Hn E.
+  destruct (step_keeps _ _ _ _ _ E) as (_ & K2 & _ & K4).
+  split.
+  - destruct (Nat.eq_dec i 0) as [E0|E0].
+    + subst i. rewrite A1 in Hn. inversion Hn; subst p.
+      destruct (listen_pc_step _ _ _ _ _ HI A1 A2 E) as (L1 & L2).
+      exists p'. split; [eapply nth_error_set_nth_same; eauto | auto].
+    + exists a. rewrite nth_error_set_nth_other by auto. repeat split; auto.
+  - destruct (Nat.eq_dec i 3) as [E0|E0].
+    + subst i. rewrite B1 in Hn. inversion Hn; subst p.
+      destruct (listener_pc_step _ _ _ _ B2 E) as (L1 & L2).
+      exists p'. split; [eapply nth_error_set_nth_same; eauto | auto].
+    + exists b. rewrite nth_error_set_nth_other by auto. repeat split; auto.
+Qed.
+
+Lemma run_inv3 sched : forall pool w, Inv3 pool w ->
+  match run New sched pool w with Running pool' w' => Inv3 pool' w' | Faulted f _ => f = SendOnClosed NDelS end.
+Proof.
+  apply (run_ind_inv New Inv3 (fun f => f = SendOnClosed NDelS)).
+  - intros ? ? ? ? ? ? (A & B & C) ? ?; split; [|split];
+      [eapply step_inv | eapply step_inv2 | eapply step_invL]; eauto.
+  - intros ? ? ? ? ? (A & B & C) ? ?; eapply step_fault; eauto.
+Qed.
+
+Lemma inv3_init cpk spk chm rch cbk calls :
+  forallb entry calls = true -> Inv3 (pool0 calls) (world0 cpk spk chm rch cbk).
+Proof.
+  intros E. split; [|split; [|split]]; [apply inv_init | apply inv2_init | | ]; auto.
+  - exists CL0. repeat split; auto. discriminate.
+  - exists LT0. repeat split; auto. discriminate.
+Qed.
+
+Lemma reachable_inv3 cpk spk chm rch cbk calls sched pool w :
+  forallb entry calls = true ->
+  run New sched (pool0 calls) (world0 cpk spk chm rch cbk) = Running pool w -> Inv3 pool w.
+Proof.
+  intros E H. pose proof (run_inv3 sched _ _ (inv3_init cpk spk chm rch cbk calls E)) as R.
+  rewrite H in R. exact R.
+Qed.
+
+(* close_returns, stated on reachable states *)
+Lemma close_returns_client cpk spk chm rch cbk calls s0 pool w j q s1 pool' w' :
+  forallb entry calls = true ->
+  run New s0 (pool0 calls) (world0 cpk spk chm rch cbk) = Running pool w ->
+  nth_error pool j = Some q -> at_cc35 q = true ->
+  16 <= count_occ_nat 0 s1 ->
+  run New s1 pool w = Running pool' w' ->
+  is_closed (done (cli w')) = true /\ exec New CC5 w' = Step w' PDone.
+Proof.
+  intros E H0 Hj Hq Hk H1.
+  destruct (reachable_inv3 _ _ _ _ _ _ _ _ _ E H0) as (HI & HJ & ((a & A1 & A2 & A3) & _)).
+  assert (Hc : closing (cli w) = true).
+  { pose proof (cnt_ge at_cc35 pool j q Hj) as G. rewrite Hq in G. simpl in G.
+    pose proof (j_cc _ _ HJ) as C. destruct (closing (cli w)); auto. simpl in C. specialize (C eq_refl). lia. }
+  destruct (client_close_returns s1 pool w a pool' w' HI Hc A1 A2 A3 Hk H1) as (R1 & _ & R3). auto.
+Qed.
+
+Lemma close_returns_listener cpk spk chm rch cbk calls s0 pool w j q s1 pool' w' r :
+  forallb entry calls = true ->
+  run New s0 (pool0 calls) (world0 cpk spk chm rch cbk) = Running pool w ->
+  nth_error pool j = Some q -> at_lc24 q = true ->
+  5 <= count_occ_nat 3 s1 ->
+  run New s1 pool w = Running pool' w' ->
+  is_closed (l_done w') = true /\ exec New (LC4 r) w' = Step w' (ret_pc r).
+Proof.
+  intros E H0 Hj Hq Hk H1.
+  destruct (reachable_inv3 _ _ _ _ _ _ _ _ _ E H0) as (HI & HJ & (_ & (b & B1 & B2 & B3))).
+  assert (Hc : l_closing w = true).
+  { pose proof (cnt_ge at_lc24 pool j q Hj) as G. rewrite Hq in G. simpl in G.
+    pose proof (j_lc _ _ HJ) as C. destruct (l_closing w); auto. simpl in C. specialize (C eq_refl). lia. }
+  eapply listener_close_returns; eauto.
+Qed.
+
+(* ---- peer_notified, server side: Close queues the notice; its receipt closes the client ---- *)
+Lemma server_close_queues_notice m r w :
+  exec m (SC2 r) w = Step (put Srv (set_peek true (srv w)) w) (SC3 r) /\
+  peek (srv (put Srv (set_peek true (srv w)) w)) = true.
+Proof. destruct w; simpl; auto. Qed.
+
+(* the exchange that delivers it: the listen goroutine takes the packet and stands at CR0 *)
+Lemma notice_is_delivered w :
+  Closing (cli w) = false -> ctxdone w = false -> callsback w = true -> reachable w = true -> peek (srv w) = true ->
+  exec New CL0 w = Step (put Srv (set_peek false (srv w)) w) CR0.
+Proof. intros H1 H2 H3 H4 H5. simpl. rewrite H1, H2, H3, H4, H5. reflexivity. Qed.
+
+Lemma Closing_keeps m p w w' p' :
+  exec m p w = Step w' p' -> Closing (cli w) = true -> Closing (cli w') = true.
+Proof.
+  intros H. apply step_le in H. unfold world_le, sess_le in H. split_andb.
+  unfold Closing. intros E. apply orb_true_iff in E. apply orb_true_iff.
+  destruct E as [E|E]; [left|right];
+    match goal with A : implb ?x _ = true |- _ = true => rewrite E in A; exact A end.
+Qed.
+
+Lemma Closing_stays : forall s pool w pool' w',
+  Closing (cli w) = true -> run New s pool w = Running pool' w' -> Closing (cli w') = true.
+Proof.
+  induction s as [|i s IH]; intros pool w pool' w' Hc H; simpl in H.
+  - inversion H; subst; auto.
+  - unfold sched1 in H. destruct (nth_error pool i) as [p|]; eauto.
+    destruct (exec New p w) eqn:Ex; try discriminate; eauto using Closing_keeps.
+Qed.
+
+Definition crank (p : pc) : nat := match p with CR0 => 4 | CR1 => 3 | CR2 => 2 | CR3 => 1 | _ => 0 end.
+
+Lemma exec_CR0 w : Closing (cli w) = false -> exec New CR0 w = Step w CR1.
+Proof. intros H. simpl. rewrite H. reflexivity. Qed.
+Lemma exec_CR1 w : Closing (cli w) = false -> exec New CR1 w = Step w CR2.
+Proof. intros H. simpl. rewrite H. reflexivity. Qed.
+Lemma exec_CR2 w : exec New CR2 w = Step (put Cli (unset_channel (cli w)) w) CR3.
+Proof. reflexivity. Qed.
+Lemma exec_CR3 w : exec New CR3 w = Step (put Cli (set_closing (cli w)) w) CR4.
+Proof. reflexivity. Qed.
+
+Lemma receipt_progress : forall sched pool w p,
+  nth_error pool 0 = Some p -> (Closing (cli w) = true \/ 1 <= crank p) ->
+  match run New sched pool w with
+  | Running pool' w' =>
+      Closing (cli w') = true \/
+      exists p', nth_error pool' 0 = Some p' /\ 1 <= crank p' /\ crank p' + count_occ_nat 0 sched <= crank p
+  | Faulted _ _ => True
+  end.
+Proof.
+  induction sched as [|i rest IH]; intros pool w p Hn D.
+  - simpl. destruct D as [D|D]; auto. right. exists p. repeat split; auto. lia.
+  - destruct (Closing (cli w)) eqn:Ec.
+    { destruct (run New (i :: rest) pool w) eqn:R; auto. left. eapply Closing_stays; eauto. }
+    destruct D as [D|D]; [discriminate|].
+    cbn [run count_occ_nat]. unfold sched1.
+    destruct (nth_error pool i) as [q|] eqn:En.
+    + destruct (Nat.eq_dec i 0) as [E0|E0].
+      * subst i. rewrite Hn in En. inversion En; subst q. cbn [Nat.eqb Nat.add].
+        destruct p; simpl in D; try lia;
+          rewrite ?(exec_CR0 _ Ec), ?(exec_CR1 _ Ec), ?exec_CR2, ?exec_CR3.
+        -- (* CR0 *) specialize (IH (set_nth 0 CR1 pool) w CR1 (nth_error_set_nth_same _ _ _ _ Hn) ltac:(right; simpl; lia)).
+           destruct (run New rest (set_nth 0 CR1 pool) w); auto.
+           destruct IH as [IH|(p' & A & B & C)]; auto. right. exists p'. simpl in *. repeat split; auto; lia.
+        -- (* CR1 *) specialize (IH (set_nth 0 CR2 pool) w CR2 (nth_error_set_nth_same _ _ _ _ Hn) ltac:(right; simpl; lia)).
+           destruct (run New rest (set_nth 0 CR2 pool) w); auto.
+           destruct IH as [IH|(p' & A & B & C)]; auto. right. exists p'. simpl in *. repeat split; auto; lia.
+        -- (* CR2 *)
+           match goal with |- context [run New rest (set_nth 0 CR3 pool) ?w1] =>
+             assert (Ec1 : Closing (cli w1) = false) by (destruct w as [[] ? ? ? ? ? ? ? ? ? ? ? ? ? ? ? ? ? ? ? ? ? ? ? ? ? ?]; exact Ec);
+             specialize (IH (set_nth 0 CR3 pool) w1 CR3 (nth_error_set_nth_same _ _ _ _ Hn) ltac:(right; simpl; lia));
+             destruct (run New rest (set_nth 0 CR3 pool) w1); auto end.
+           destruct IH as [IH|(p' & A & B & C)]; auto. right. exists p'. simpl in *. repeat split; auto; lia.
+        -- (* CR3 *)
+           match goal with |- context [run New rest (set_nth 0 CR4 pool) ?w1] =>
+             assert (Ec1 : Closing (cli w1) = true) by (destruct w as [[] ? ? ? ? ? ? ? ? ? ? ? ? ? ? ? ? ? ? ? ? ? ? ? ? ? ?]; unfold Closing; simpl; apply orb_true_r);
+             destruct (run New rest (set_nth 0 CR4 pool) w1) eqn:R; auto; left; eapply Closing_stays; eauto end.
+      * assert (Eb : Nat.eqb i 0 = false) by (apply Nat.eqb_neq; auto). rewrite Eb. cbn [Nat.add].
+        destruct (exec New q w) as [w1 q1| |f] eqn:E; auto.
+        -- specialize (IH (set_nth i q1 pool) w1 p).
+           rewrite nth_error_set_nth_other in IH by auto.
+           apply IH; auto.
+        -- apply (IH pool w p); auto.
+    + destruct (Nat.eq_dec i 0) as [E0|E0]; [subst; congruence|].
+      assert (Eb : Nat.eqb i 0 = false) by (apply Nat.eqb_neq; auto). rewrite Eb. cbn [Nat.add].
+      apply (IH pool w p); auto.
+Qed.
+
+(* a client whose listen goroutine has received the server's notice (stands at CR0) is closing
+   after four more steps of that goroutine, whatever else runs in between *)
+Lemma receipt_closes_client sched pool w pool' w' :
+  nth_error pool 0 = Some CR0 -> 4 <= count_occ_nat 0 sched ->
+  run New sched pool w = Running pool' w' -> Closing (cli w') = true.
+Proof.
+  intros Hn Hk Hr.
+  pose proof (receipt_progress sched pool w CR0 Hn ltac:(right; simpl; lia)) as P.
+  rewrite Hr in P. destruct P as [P|(p' & A & B & C)]; auto. simpl in C. lia.
+Qed.
+
+(* ------------------------------------------------------------------------------------------ *)
+(* the statements on reachable states                                                           *)
+Lemma peer_notified_client cpk spk chm rch cbk calls sched pool w :
+  forallb entry calls = true ->
+  run New sched (pool0 calls) (world0 cpk spk chm rch cbk) = Running pool w ->
+  closed (cli w) = true -> reachable w = true -> sent_shut w = true.
+Proof.
+  intros E H. destruct (reachable_inv3 _ _ _ _ _ _ _ _ _ E H) as (_ & HJ & _).
+  eapply peer_notified_inv; eauto.
+Qed.
+
+Lemma server_forgets cpk spk chm rch cbk calls sched pool w :
+  forallb entry calls = true ->
+  run New sched (pool0 calls) (world0 cpk spk chm rch cbk) = Running pool w ->
+  closed (srv w) = true -> sctx_done w = false -> delq w = 0 -> cnt at_sd12_srv pool = 0 ->
+  listed w = false.
+Proof.
+  intros E H. destruct (reachable_inv3 _ _ _ _ _ _ _ _ _ E H) as (_ & HJ & _).
+  eapply server_forgets_inv; eauto.
+Qed.
+
+(* the flags and the channels agree in every reachable state (what the harness checks on the
+   implementation at quiescence) *)
+Lemma flags_match_channels cpk spk chm rch cbk calls sched pool w :
+  forallb entry calls = true ->
+  run New sched (pool0 calls) (world0 cpk spk chm rch cbk) = Running pool w ->
+  sess_ok (cli w) = true /\ sess_ok (srv w) = true.
+Proof.
+  intros E H. destruct (reachable_inv3 _ _ _ _ _ _ _ _ _ E H) as (HI & _ & _).
+  split; [apply (i_okc _ _ HI) | apply (i_okv _ _ HI)].
+Qed.
+
+Lemma channels_closed_once_refuted :
+  exists calls sched, forallb entry calls = true /\
+    faulted (run New sched (pool0 calls) (world0 false false false true false)) = true.
+Proof.
+  exists [SH0 false; SV0], sched_remove_race. split; [reflexivity|].
+  rewrite remove_race_refuted. reflexivity.
+Qed.
